@@ -354,12 +354,15 @@ func cmdCheck(eng *Engine, args []string) int {
 	}
 	// finite-domain obligations (complete evaluation of the real code)
 	scanResults := append(append(eng.finiteDomain(id, tmp), eng.confinedChecks(id)...), eng.mapOrderChecks(id)...)
-	scanResults = append(scanResults, eng.errDynTypeChecks(id)...)
+	// (errDynTypeChecks - "every error built in the exporter has the type castErr asserts" - is no longer an obligation: since
+	// the accessors recover a panic of the conversion, a failing assertion there is an error of the export, not a violation)
 	scanResults = append(scanResults, eng.recoverBoundaryChecks(id)...)
 	scanResults = append(scanResults, eng.loopVarChecks(id)...)
 	scanResults = append(scanResults, eng.quotedParamChecks(id)...)
 	scanResults = append(scanResults, eng.usedTypesChecks(id)...)
 	scanResults = append(scanResults, eng.layoutChecks(id)...)
+	scanResults = append(scanResults, eng.quoteChecks(id)...)
+	scanResults = append(scanResults, eng.descEndChecks(id)...)
 	if id == "C16" {
 		scanResults = append(scanResults, eng.repeatChecks(id)...)
 		// determinism of what is computed: C06's obligation set, re-run under C16
